@@ -92,16 +92,22 @@ def run(ctx):
         ttol = 5e-4 * (1 + big / 50.0)
         scale = 10.0
         res_np, res_t = [], []
+        # the SAME argument objects are passed to every call of the case (a caller keeps its origin / offset / angles around): the result
+        # for the same arguments must not depend on how often they have been used
+        a_np, o_np, f_np = list(ang), np.array(origin, dtype=np.float64), np.array(offset, dtype=np.float64)
+        a_t = torch.tensor([ang], dtype=torch.float64)
+        o_t, f_t = torch.tensor([origin], dtype=torch.float64), torch.tensor([offset], dtype=torch.float64)
         for p in pts:
-            r1, rx, ry, rz = NT.rotate_point(np.array(p, dtype=np.float64), angles=ang, mode=mname,
-                                             origin=list(origin), offset=list(offset))
+            r1, rx, ry, rz = NT.rotate_point(np.array(p, dtype=np.float64), angles=a_np, mode=mname, origin=o_np, offset=f_np)
             cmp('numpy rotate_point', r1, nxt(), 1e-9, rec, scale)
-            r2 = NT.rotate_points(np.array([p], dtype=np.float64), angles=ang, mode=mname, origin=list(origin), offset=list(offset))
+            r2 = NT.rotate_points(np.array([p], dtype=np.float64), angles=a_np, mode=mname, origin=o_np, offset=f_np)
             cmp('numpy rotate_points', r2, nxt(), 1e-9, rec, scale)
-            r3, *_ = LT.rotate_points(torch.tensor([p], dtype=torch.float64), angles=torch.tensor([ang], dtype=torch.float64),
-                                      mode=mname, origin=torch.tensor([origin], dtype=torch.float64),
-                                      offset=torch.tensor([offset], dtype=torch.float64))
+            r3, *_ = LT.rotate_points(torch.tensor([p], dtype=torch.float64), angles=a_t, mode=mname, origin=o_t, offset=f_t)
             cmp('torch rotate_points', r3.numpy(), nxt(), ttol, rec, scale)
+            r3b, *_ = LT.rotate_points(torch.tensor([p], dtype=torch.float64), angles=a_t, mode=mname, origin=o_t, offset=f_t)
+            if not np.allclose(r3b.numpy(), r3.numpy(), atol=1e-12):
+                ctx.violation('torch rotate_points: a second call with the same arguments returns %s, the first returned %s'
+                              % (r3b.numpy().tolist(), r3.numpy().tolist()), rec, {'what': 'repeat_call', 'api': 'torch', 'mode': mname})
             res_np.append(np.asarray(r2).reshape(3))
             res_t.append(r3.numpy().reshape(3))
             # NumPy and torch agree
